@@ -20,12 +20,13 @@ class _FalsyError(Exception):
 
 def exc_of(kind):
     """exception class raised by a scripted coroutine failure (any Exception subclass)"""
-    return {"ValueError": ValueError, "TimeoutError": asyncio.TimeoutError, "KeyError": KeyError, "OSError": OSError,
+    from scheduler.error import SchedulerError
+    return {"SchedulerError": SchedulerError, "ValueError": ValueError, "TimeoutError": asyncio.TimeoutError, "KeyError": KeyError, "OSError": OSError,
             "LookupError": LookupError, "StopAsyncIteration": StopAsyncIteration, "InvalidStateError": asyncio.InvalidStateError,
             "RuntimeError": RuntimeError, "FalsyError": _FalsyError}.get(kind if isinstance(kind, str) else "ValueError", ValueError)
 
 
-AIO_EXC = ["ValueError", "ValueError", "TimeoutError", "KeyError", "OSError", "LookupError", "StopAsyncIteration",
+AIO_EXC = ["ValueError", "ValueError", "SchedulerError", "SchedulerError", "TimeoutError", "KeyError", "OSError", "LookupError", "StopAsyncIteration",
            "InvalidStateError", "RuntimeError", "FalsyError"]
 
 
